@@ -301,12 +301,18 @@ theorem handleMetadataData_pb (m : M) (k i len : Nat) (g : Bool) (h : PBehind m.
     | exact hmdAdopt_pb _ (h.of_eq rfl rfl rfl)
     | (refine h.of_eq ?_ ?_ ?_ <;> simp <;> done)
 
+/-- The two forms of the verify command (`verifyHeld`: the harness leaves the storage gates alone). -/
 def Op.isVerify : Op → Bool
   | .verify => true
+  | .verifyHeld => true
   | _ => false
 
 theorem mutate_pb (s : St) (f : Option Nat) (how : Mut) (h : PBehind s) : PBehind (mutate s f how) :=
   h.of_eq (by simp) (by simp) (by simp)
+
+/-- The stop command (fix C04-F6): the pending verification request is withdrawn, then `stop`. -/
+theorem stopCmd_pb (s : St) (h : PBehind s) : PBehind (({ s with doVerify := false }).stop false) :=
+  stop_pb _ false (h.of_eq h.dv.symm rfl rfl)
 
 theorem handle_pb (s : St) (p : Parked) (kn : Nat → Bool) (op : Op) (hop : op.isVerify = false) (h : PBehind s) :
     PBehind (handle s p kn op).1.1 := by
@@ -319,7 +325,8 @@ theorem handle_pb (s : St) (p : Parked) (kn : Nat → Bool) (op : Op) (hop : op.
     | exact handlePieceMessage_pb (s, []) _ _ _ _ _ h
     | exact handleMetadataData_pb (s, []) _ _ _ _ h
     | exact mutate_pb s _ _ h
-    | (simp only [onSt_fst]; exact (stop_pb s false h).of_eq rfl rfl rfl)
+    | (simp only [onSt_fst]; exact (stopCmd_pb s h).of_eq rfl rfl rfl)
+    | (simp only [onSt_fst]; exact stopCmd_pb s h)
     | (next hb => exact h.written rfl hb.symm)
     | (next heq => have hm := congrArg Prod.fst heq; simp only at hm; rw [← hm]; refine h.of_eq ?_ ?_ ?_ <;> simp <;> done)
     | (refine h.of_eq ?_ ?_ ?_ <;> simp <;> done)
